@@ -223,7 +223,7 @@ __CPROVER_ensures(g_drained == g_cached && g_up_dealloc == g_cached && g_q_out =
 ;
 //@loop CachedPA_CachedPageAllocator_lambda_page_allocator_dtor_CachedPageAllocator_1_op_call 1
 //@  VF_REBASE(iter._slot, g_slots)
-//@  __CPROVER_assigns(iter, __t1, __t2, g_up_dealloc, g_drained)
+//@  __CPROVER_assigns(iter, g_up_dealloc, g_drained)
 //@  __CPROVER_loop_invariant(__CPROVER_same_object(iter._slot, g_slots) && iter._slot == g_slots + g_drained && iter._slot <= end._slot && g_mode == 2)
 //@  __CPROVER_loop_invariant(g_up_dealloc == g_drained && g_drained <= g_cached)
 //@end
